@@ -46,6 +46,7 @@ func main() {
 	switch a["mode"] {
 	case "search":
 		n := hx.ArgInt(a, "n", 400)
+		g.search = true
 		runSearch(g, n, stats)
 	case "replay":
 		f, err := os.Open(a["file"])
@@ -133,9 +134,15 @@ func runSessions(g *Gen, sessions int, stats map[string]interface{}) {
 	w := g.w
 	blocks, txs := 0, 0
 	status := map[string]int{}
+	forks := map[string]int{}
 	for s := 0; s < sessions; s++ {
 		w.univ = universe()
+		w.fork = forkPoints[0]
+		if s%2 == 1 {
+			w.fork = forkPoints[1+(s/2+int(g.r.U64()%3))%(len(forkPoints)-1)]
+		}
 		w.Reset(true)
+		forks[w.fork.label]++
 		withContracts := s%4 != 0
 		g.setup(withContracts)
 		nb := 6 + g.r.Intn(10)
@@ -172,6 +179,7 @@ func runSessions(g *Gen, sessions int, stats map[string]interface{}) {
 	stats["blocks"] = blocks
 	stats["txs"] = txs
 	stats["tx_status"] = status
+	stats["forks"] = forks
 }
 
 // out-of-domain amount strings: one tiny session each, so an `unmodelled` answer cannot
@@ -180,6 +188,7 @@ func runIsolated(g *Gen) {
 	w := g.w
 	for i, s := range outsideAmounts {
 		w.univ = universe()
+		w.fork = forkPoints[0]
 		w.Reset(true)
 		w.Set(eoas[0], rpg(1000))
 		if i%2 == 0 {
@@ -190,6 +199,7 @@ func runIsolated(g *Gen) {
 		}
 		w.Exec()
 	}
+	w.fork = forkPoints[0]
 	w.Reset(true)
 }
 
@@ -254,7 +264,14 @@ func replayOne(w *World, line string) {
 	{
 		t := strings.Fields(line)
 		switch t[0] {
+		case "cfg":
+			// session header only; the cfg lines a session emits when it crosses a proposal height are
+			// re-derived by the replay itself (refreshFlags)
+			if fp := forkByLabel(t[len(t)-1]); strconv.FormatUint(fp.height, 10) == t[1] {
+				w.SetFork(fp)
+			}
 		case "reset":
+			w.fork = forkPoints[0]
 			w.Reset(false)
 			w.out.Emit("reset", "ok")
 		case "univ":
@@ -356,11 +373,17 @@ func runSearch(g *Gen, n int, stats map[string]interface{}) {
 	w := g.w
 	found := map[string]bool{}
 	evals := 0
+	sess := 0
 	var history []string
 	evals += searchCorpus(w, found)
 	evals += searchUnstake(w, found)
 	for evals < n {
 		w.univ = universe()
+		w.fork = forkPoints[0]
+		if sess%2 == 1 {
+			w.fork = forkPoints[1+(sess/2)%(len(forkPoints)-1)]
+		}
+		sess++
 		w.Reset(true)
 		history = history[:0]
 		withContracts := g.r.Chance(3, 4)
@@ -459,9 +482,18 @@ func classify(qs []*QTx, res BlockResult) string {
 			nodeFees.Add(nodeFees, rpg(10))
 		}
 	}
+	failedNode := false
+	for i, q := range qs {
+		if q.feat["node"] && i < len(res.Statuses) && res.Statuses[i] == 'f' {
+			failedNode = true
+		}
+	}
 	switch {
 	case d.Sign() > 0:
 		switch {
+		case !res.P002 && mayBurn:
+			// below Proposal002Block balance writes bypass the journal; only Suicide's recorded balance is written back
+			return "pre002-reverted-selfdestruct-mint"
 		case neg:
 			return "mint-negative-transferValue"
 		case canUnstake:
@@ -483,6 +515,10 @@ func classify(qs []*QTx, res BlockResult) string {
 		}
 		if nodeFees.Sign() > 0 && drop.Cmp(nodeFees) == 0 {
 			return "burn-operator-node-fee"
+		}
+		if !res.P002 && failedNode && new(big.Int).Mod(drop, rpg(10)).Sign() == 0 {
+			// a failed OperatorNode transaction keeps its 10 RPG debit: the revert does not restore balances
+			return "pre002-failed-tx-keeps-debit"
 		}
 		return "burn-unexplained"
 	}
@@ -567,6 +603,7 @@ func ctMayBurn(w *World, q *QTx) bool {
 func snapshotLines(w *World) []string {
 	var ls []string
 	ls = append(ls, "reset")
+	ls = append(ls, fmt.Sprintf("cfg %d %d %d %d %d %d %d %s", w.fork.height, b2i(w.flags.P002), b2i(w.flags.P015), b2i(w.flags.P017), b2i(w.flags.P018), b2i(w.flags.P026), b2i(w.flags.P027), w.fork.label))
 	u := []string{"univ"}
 	for _, a := range w.univ {
 		u = append(u, hexAddr(a))
